@@ -296,10 +296,40 @@ def t13_dom(run, fx):
             run.ok(rule, "%s: %d operator call(s), all on Fixed" % (path.split("::")[-1], n))
 
 
+def t13_zero(run, fx):
+    rule = "T13-ZERO"
+    run.rule(rule, "default_normalize maps the axis default to exactly 0 without dividing: every fixed-point division of the function lies "
+                   "under the true branch of a strict comparison with the default (coord < default, coord > default) and the remaining case "
+                   "assigns the constant 0 (OpenType: 'if userValue == defaultValue then 0'; with default == max the quotient would be 0/0)")
+    b = fx.body("tables::variable_fonts::fvar::default_normalize")
+    if b is None:
+        return run.anchor_missing(rule, "tables::variable_fonts::fvar::default_normalize")
+    prov = sym.Prov(b)
+    conds = [(tb, call) for tb, fb, call, sw in guards.bool_call_conditions(b, prov)
+             if tb is not None and (call[4] or call[1] or "").endswith(("PartialOrd::lt", "PartialOrd::gt"))
+             and any(x[0] == "field" and x[2] == "default_value" for x in sym.walk(call))]
+    divs = [(bi, t) for bi, t in b.calls() if (t["callee"].get("rpath") or t["callee"].get("path") or "").endswith("Div>::div")]
+    if not divs:
+        return run.anchor_missing(rule, "Fixed divisions in default_normalize")
+    bad = [bi for bi, t in divs if not any(b.dominates(tb, bi) for tb, _ in conds)]
+    zero = False
+    for bi, t in b.calls():
+        if (t["callee"].get("path") or "").endswith("From::from") and t["args"] and t["args"][0]["k"] == "const" and t["args"][0].get("val") == 0:
+            zero = True
+    if not bad and zero:
+        run.ok(rule, "default_normalize: %d division(s), each under a strict comparison with the default; the equal case is the constant 0" % len(divs))
+    else:
+        run.fail(rule, "default-zero", "default_normalize: %s" % ("a division is reached without a strict comparison with the default (the default itself "
+                 "is divided: 0/0 when default == max or min)" if bad else "no branch assigns the constant 0 for coord == default"),
+                 b.loc(b.term(bad[0])) if bad else "%s:%s" % (b.file, b.line))
+
+
 def check(run, fx, tier, floors=True):
     if floors or fx.body("tables::variable_fonts::avar::SegmentMap::<'_>::normalize") is not None:
         t13_dom(run, fx)
     t13_len(run, fx)
+    if floors or fx.body("tables::variable_fonts::fvar::default_normalize") is not None:
+        t13_zero(run, fx)
     t13_clamp(run, fx)
     t13_ord(run, fx)
     t13_priv(run, fx)
